@@ -36,7 +36,9 @@ def bl(xs):
     return "[" + ";".join("true" if x else "false" for x in xs) + "]"
 
 
-def op_lit(o):
+def op_lit(o, c, name):
+    """ops refer to the case's data / parts definitions where the observed bytes are equal to them
+    (keeps the generated file small: parsing byte literals dominates the evaluation time)"""
     if o["kind"] == "decode":
         kind = "KDecode"
     elif o["kind"] == "range":
@@ -44,17 +46,25 @@ def op_lit(o):
     else:
         kind = "(KIdx %s)" % vlib.coq_list(o["idxs"])
     tr = "None" if o["trunc"] < 0 else "(Some %d)" % o["trunc"]
-    return "(%s, %s, %s, %s, %s, %s)" % (kind, bl(o["mask"]), tr, vlib.coq_bool(o["ok"]), nl(o["out"]), mat(o["parts"]))
+    out = ("%s_d" % name) if (o["out"] == c["data"] and o["out"]) else nl(o["out"])
+    after = []
+    for i, p in enumerate(o["parts"]):
+        if p and i < len(c["parts"]) and p == c["parts"][i]:
+            after.append("(nth %d %s_p [])" % (i, name))
+        else:
+            after.append(nl(p))
+    return "(%s, %s, %s, %s, %s, [%s])" % (kind, bl(o["mask"]), tr, vlib.coq_bool(o["ok"]), out, ";".join(after))
 
 
-def case_lit(c):
-    return "(%d, %d, %s, %s, %s, %s, %d, [%s])" % (
-        c["k"], c["m"], nl(c["data"]), vlib.coq_bool(c["enc_ok"]), mat(c["parts"]), vlib.coq_bool(c["hashes_ok"]),
-        c["n_hashes"], ";".join(op_lit(o) for o in c["ops"]))
+def case_defs(c, name):
+    return ("Definition %s_d : list N := %s.\nDefinition %s_p : mat := %s.\n" % (name, nl(c["data"]), name, mat(c["parts"]))
+            + "Definition %s : case := (%d, %d, %s_d, %s, %s_p, %s, %d, [%s]).\n" % (
+                name, c["k"], c["m"], name, vlib.coq_bool(c["enc_ok"]), name, vlib.coq_bool(c["hashes_ok"]),
+                c["n_hashes"], ";\n".join(op_lit(o, c, name) for o in c["ops"])))
 
 
 def case_cost(c):
-    return 200 + (len(c["data"]) + 50) * (1 + len(c["ops"])) * (c["k"] + c["m"])
+    return 2000 + len(c["data"]) * 40 + (len(c["data"]) + 50) * (1 + len(c["ops"])) * (c["k"] + c["m"])
 
 
 def chunked(cases, nchunks):
@@ -72,8 +82,8 @@ def eval_rs(ctx, cases):
     """returns (bad_model, bad_ref) as sets of (case index, j) with j=0 encode, j>0 op j-1; None on failure"""
     jobs, maps = [], []
     for idxs in chunked(cases, 32):
-        lit = "[" + ";\n".join(case_lit(cases[i]) for i in idxs) + "]"
-        jobs.append(("rs", PRELUDE + "Definition cases : list case := %s.\n" % lit,
+        defs = "".join(case_defs(cases[i], "c%d" % i) for i in idxs)
+        jobs.append(("rs", PRELUDE + defs + "Definition cases : list case := [%s].\n" % ";".join("c%d" % i for i in idxs),
                      {"model": "model_mismatches cases", "ref": "ref_mismatches cases"}))
         maps.append(idxs)
     bad_model, bad_ref = set(), set()
